@@ -441,6 +441,8 @@ def segLoop {σ : Type} (w : World σ) (cfg : Cfg) :
           let total := total + chunk
           if h.isLast then
             (if total ≤ buf.length then .ok (buf.take total) else .err .internal, s)
+          -- `if chunk_len == 0 { return Err(Error::Internal) }` (fix-c16-endless-loops)
+          else if chunk == 0 then (.err .internal, s)
           else segLoop w cfg fuel (!toggle) buf total s
 
 /-- `sdo_read` up to (not including) `T::unpack_from_slice`: the bytes handed to the destination type's decoder.
@@ -562,11 +564,9 @@ def sdoWriteArray {σ : Type} (w : World σ) (cfg : Cfg) (index : Nat) (values :
 
 /-! ### SDO information -/
 
-/-- What one iteration of the `loop` in `send_sdo_info_service` does with a response. -/
+/-- What one successful iteration of the `loop` in `send_sdo_info_service` does with a response: the fragment is
+    appended; `incomplete` says whether more follow. -/
 inductive InfoStep where
-  /-- not a Get-OD-List response: ignored, wait for the next message -/
-  | skip
-  /-- fragment appended; `incomplete` says whether more follow -/
   | frag (buf : List Nat) (incomplete : Bool)
   deriving Repr, DecidableEq
 
@@ -584,9 +584,12 @@ def infoStep (_cfg : Cfg) (p : Pdu) (consumed : Bool) (buf : List Nat) : Res Inf
       -- heapless `extend_from_slice`: refuses (copies nothing) when it does not fit
       else if buf.length + ((infoTrim p consumed).bytes.take (h.mailbox.length - COE_HEADER_AND_LIST_TYPE_SIZE)).length >
           INFO_BUF_CAP then .err .internal
+      -- `if length == 0 { return Err(Error::Internal) }` after `if !incomplete { break }` (fix-c16-endless-loops)
+      else if h.incomplete && h.mailbox.length - COE_HEADER_AND_LIST_TYPE_SIZE == 0 then .err .internal
       else .ok (.frag (buf ++ (infoTrim p consumed).bytes.take (h.mailbox.length - COE_HEADER_AND_LIST_TYPE_SIZE))
         h.incomplete)
-    else .ok .skip
+    -- anything but a Get-OD-List response ends the request (fix-c16-endless-loops)
+    else .err (.responseInvalid 0 0)
 
 /-- The `loop` of `send_sdo_info_service` over the messages queued in the OUT mailbox. Returns the result, the
     messages left in the queue and the number of messages read (= iterations, not counting the one that timed out). -/
@@ -596,7 +599,6 @@ def infoLoop (cfg : Cfg) : List (List Nat) → Bool → List Nat → Nat → Res
     match infoStep cfg (mkPdu cfg (image cfg.rmbx m)) consumed buf with
     | .err e => (.err e, q, reads + 1)
     | .panic why => (.panic why, q, reads + 1)
-    | .ok .skip => infoLoop cfg q consumed buf (reads + 1)
     | .ok (.frag buf' incomplete) =>
       if incomplete then infoLoop cfg q true buf' (reads + 1) else (.ok buf', q, reads + 1)
 
